@@ -22,8 +22,8 @@ type IntV struct {
 
 // FloatV: only concrete float constants are supported.
 type FloatV struct {
-	F  float64
-	Ns string // if set: the value is (Int term Ns)/Div (time.Duration.Seconds/Minutes/Hours of a symbolic duration)
+	F   float64
+	Ns  string // if set: the value is (Int term Ns)/Div (time.Duration.Seconds/Minutes/Hours of a symbolic duration)
 	Div int64
 }
 
@@ -37,12 +37,12 @@ const (
 )
 
 type StrV struct {
-	K   int
-	S   string
-	T   string
-	C   []string
-	Pre string // opaque only: a known literal prefix of the value
-	Min int    // opaque only: a known lower bound of the length
+	K       int
+	S       string
+	T       string
+	C       []string
+	Pre     string // opaque only: a known literal prefix of the value
+	Min     int    // opaque only: a known lower bound of the length
 	FromInt string // opaque only: the value is the decimal spelling of this Int term
 }
 
